@@ -12,6 +12,8 @@
 import json, os, shutil, subprocess, sys, time
 
 args = [a for a in sys.argv[1:] if not a.startswith("--")]
+if "--rev" in sys.argv:
+    args.remove(sys.argv[sys.argv.index("--rev") + 1])
 tier = "quick"
 if "--tier" in sys.argv:
     tier = sys.argv[sys.argv.index("--tier") + 1]
@@ -25,8 +27,11 @@ def sh(cmd, **kw):
     return subprocess.run(cmd, shell=True, capture_output=True, text=True, **kw)
 
 sh(f"git -C /repo worktree remove --force {wt}")
-assert sh(f"git -C /repo worktree add -q --detach {wt} HEAD").returncode == 0
-res = {"seed": sid, "props": props, "tier": tier, "repo_head": sh("git -C /repo rev-parse --short HEAD").stdout.strip()}
+rev = "HEAD"
+if "--rev" in sys.argv:
+    rev = sys.argv[sys.argv.index("--rev") + 1]
+assert sh(f"git -C /repo worktree add -q --detach {wt} {rev}").returncode == 0
+res = {"seed": sid, "props": props, "tier": tier, "repo_head": sh(f"git -C /repo rev-parse --short {rev}").stdout.strip()}
 try:
     ap = sh(f"git -C {wt} apply {src}/patch.diff")
     res["patch_applies"] = ap.returncode == 0
